@@ -35,15 +35,15 @@ def grid_dataset(ctx, conv, shape, as_coords=True):
         kinds = {}
         for kind, base in (('face', 1000), ('left', 2000), ('back', 3000), ('node', 4000)):
             yd, xd = D[kind]
-            data[f'v_{kind}'] = (('t', yd, xd), S(ctx, f'v{kind}', (2,) + SH[kind], base))
+            data[f'v_{kind}'] = (('record', yd, xd), S(ctx, f'v{kind}', (2,) + SH[kind], base))
             data[f'id_{kind}'] = ((yd, xd), clipcommon.ids(SH[kind]))
             kinds[kind] = dict(dims=(yd, xd), shape=SH[kind], float=[f'v_{kind}'], id=f'id_{kind}')
-        data['w_face'] = ((D['face'][1], 't', D['face'][0]), S(ctx, 'wface', (nx, 2, ny), 5000))
+        data['w_face'] = ((D['face'][1], 'record', D['face'][0]), S(ctx, 'wface', (nx, 2, ny), 5000))
         kinds['face']['float'].append('w_face')
         data['flag'] = (D['face'], clipcommon.ids(SH['face'], 'int16', 10), {'_FillValue': numpy.int16(-99)})
         data['miss'] = (D['face'], clipcommon.ids(SH['face'], 'int32', 20), {'missing_value': numpy.int32(-1)})
         kinds['face']['intfill'] = [('flag', -99), ('miss', -1)]
-        data['clock'] = (('t',), numpy.array([5.0, 6.0]), {'long_name': 'clock'})
+        data['clock'] = (('record',), numpy.array([5.0, 6.0]), {'long_name': 'clock'})
         data['scalar'] = ((), numpy.float64(7.5))
         ds = builders.shoc_standard(ny, nx, data_vars=data, as_coords=as_coords)
         ds.attrs['title'] = 'clip me'
@@ -61,7 +61,12 @@ def grid_dataset(ctx, conv, shape, as_coords=True):
     }
     kinds = {'face': dict(dims=(yd, xd), shape=(ny, nx), float=['temp', 'botz', 'mid'], id='cellid', intfill=[('flag', -99), ('miss', -1)])}
     if conv == 'cf1d':
-        ds = builders.cf1d(ny, nx, data_vars=data, as_coords=as_coords)
+        # stored bounds: the cell geometry is explicit, so it can be compared before and after clipping
+        # (and a clipped axis of length one still has a width)
+        lat = numpy.array([10 + j + 0.125 * j * j for j in range(ny)])
+        lon = numpy.array([100 + 2 * i + 0.25 * i * i for i in range(nx)])
+        ds = builders.cf1d(ny, nx, lat=lat, lon=lon, lat_bounds=numpy.stack([lat - 0.375, lat + 0.5], axis=-1),
+                           lon_bounds=numpy.stack([lon - 0.75, lon + 0.875], axis=-1), data_vars=data, as_coords=as_coords)
         cv = CFGrid1D(ds)
     else:
         jj, ii = numpy.meshgrid(numpy.arange(ny, dtype=float), numpy.arange(nx, dtype=float), indexing='ij')
@@ -331,7 +336,7 @@ def run(tier, seed=0, replay=None, procs=None, only=None, prop=PROP, check='valu
         cs = [c for c in cs if re.search(only, c.name)]
     q = tier == 'quick'
     return main_run(
-        prop, tier, cs, functions=functions(), seed=seed, procs=min(procs or 16, 8),
+        prop, tier, cs, functions=functions(), seed=seed, procs=procs or 16,
         bounds=dict(
             datasets=f'grids 2x2..{"2x3" if q else "3x3"} of every convention with float variables (spatial dimensions first / middle / last), '
                      f'int without fill, int with _FillValue / missing_value, non-spatial and scalar variables; meshes '
